@@ -7,7 +7,7 @@
 (* step violated no monitor clause; base and step checks prove it           *)
 (* inductive, i.e. C13p, C13l, C14a-f hold on all histories of the design.  *)
 (***************************************************************************)
-EXTENDS PollingScanner
+EXTENDS PollingScanner, PnScanner
 
 VARIABLES
     \* @type: Int -> $pollSt;
@@ -19,7 +19,11 @@ VARIABLES
     \* @type: Int;
     to,
     \* @type: Set(Str);
-    viol
+    viol,
+    \* @type: Seq(Int);
+    rt,    \* an arbitrary (N)RPN message, fixed at the start (for the C12 theorem)
+    \* @type: Str;
+    rtOrd
 
 Chans == 0..15
 B7 == (-1)..127
@@ -29,6 +33,7 @@ Lasts == {"none", "num", "cc6", "cc38", "incdec"}
 Init == /\ sc = [c \in Chans |-> PollInit] /\ gh = [c \in Chans |-> PgInit]
         /\ now = 0 /\ viol = {}
         /\ \E t \in Int : t >= -1 /\ to = t
+        /\ rt = Pn7(0, 0, 0, FALSE, 0) /\ rtOrd = "msb"
 
 Feed == \E s \in 128..255, d1 \in 0..127, d2 \in 0..127 :
     LET m == Msg3(s, d1, d2)  c == MsgChannel(m) IN
@@ -53,7 +58,7 @@ Tick == \E d \in Int : d >= 0 /\ now' = now + d /\ UNCHANGED <<sc, gh, to>> /\ v
 Reset == /\ sc' = [c \in Chans |-> PollReset(sc[c])] /\ gh' = [c \in Chans |-> PgReset(gh[c])]
          /\ viol' = {} /\ UNCHANGED <<now, to>>
 
-Next == Feed \/ Poll \/ Tick \/ Reset
+Next == (Feed \/ Poll \/ Tick \/ Reset) /\ UNCHANGED <<rt, rtOrd>>
 
 \* @type: ($pollSt, $pollGhost, Int) => Bool;
 Linked(st, g, t) ==
@@ -78,6 +83,24 @@ IndInv == /\ now >= 0 /\ to >= -1
           /\ \A c \in Chans : Linked(sc[c], gh[c], now)
           /\ viol = {}                 \* no clause of C13 / C14 was violated by the last step
 
+\* C12 ("consequently") for ALL messages, BOTH byte orders, EVERY finite timeout and ALL states consistent
+\* with IndInv: encode, feed, wait for the timeout, poll  =>  exactly the message, preceded at most by the
+\* flush of a value that was still pending (unrolled; the empty fourth slot is skipped)
+\*   apalache-mc check --init=IndInit --inv=RtInv --length=0 Ind_Poll.tla
+\* @type: ($pollSt, $pollGhost, Seq(Int), Str, Int, Int) => Bool;
+EncodeWaitPollOK(st, g, msg, ord, t, tmo) ==
+    LET e  == PnEncode(msg, ord)
+        c  == msg[1]
+        r1 == PollFeed(st, e[1], t)
+        r2 == PollFeed(r1.st, e[2], t)
+        r3 == PollFeed(r2.st, e[3], t)
+        r4 == IF e[4] = NoMsg THEN [st |-> r3.st, out |-> <<>>] ELSE PollFeed(r3.st, e[4], t)
+        p  == PollPoll(r4.st, c, t + tmo, tmo)
+        total == r1.out \o r2.out \o r3.out \o r4.out \o p.out
+    IN \/ total = <<msg>>
+       \/ Len(total) = 2 /\ total[2] = msg /\ IsEntry7(total[1]) /\ g.owe
+RtInv == to # Inf => EncodeWaitPollOK(sc[rt[1]], gh[rt[1]], rt, rtOrd, now, to)
+
 \* non-vacuity witnesses: these are NOT invariants; Apalache must refute them from IndInit
 NoPendingMsb == \A c \in Chans : ~(sc[c].ph = "VP" /\ sc[c].ismsb)
 NoFvc == \A c \in Chans : sc[c].ph # "FVC"
@@ -98,5 +121,8 @@ IndInit ==
                                   c38 |-> g38[c], c38t |-> g38t[c], rep |-> grep[c], last |-> glast[c],
                                   late38 |-> glate[c], owe |-> gowe[c]]]
     /\ viol = {}
+    /\ \E c \in Chans, n \in 0..16383, v \in 0..16383, r \in BOOLEAN, k \in 0..3 :
+          rt = IF k = 3 THEN Pn14(c, n, v, r) ELSE Pn7(c, n, v % 128, r, k)
+    /\ rtOrd \in {"msb", "lsb"}
     /\ IndInv
 ===============================================================================
